@@ -534,7 +534,7 @@ func (r *runner) step(i int, o OpSpec) string {
 				case "no-field":
 					r.fatal = append(r.fatal, "pending.State has no map field newClasses (reflection)")
 				}
-				out += " cm=" + tok
+				out += " cm=" + tok + " " + readsExtra(sr)
 				r.hit("state-classmap-" + tok)
 			}
 			if e == nil && o.Op == "state" {
